@@ -26,7 +26,7 @@ BUDGET = {
 REQUIRED_PROBES = ["explicit_rule", "implicit_rule", "no_header_expected", "override_same_key", "nested_field",
                    "value_needs_escaping", "non_matching_value", "empty_value", "header_on_retry_attempt",
                    "header_on_later_page", "async_header", "extra_trailing_segments", "no_template_param", "rest_header", "rest_header_on_later_page", "header_on_lro",
-                   "header_on_sstream", "shared_metadata_list_later_call", "custom_http_pattern", "header_on_fetch_after_resume"]
+                   "header_on_sstream", "shared_metadata_list_later_call", "custom_http_pattern", "header_on_fetch_after_resume", "rest_connection_error_surfaced"]
 SEGS = ["p1", "my-proj", "a b", "é", "x%y", "k=v&z", "seg.1", "~t", "q+r", "UPPER"]
 
 
@@ -264,6 +264,12 @@ def gen_op(spec, rng, codec, fs, s, m, cls, oid, client):
                 script.append({"code": rng.choice(codes)})
         if op["kind"] == "sstream":
             script = [{"items": [{}]}]           # (stream-start faults: api-core's sync/asyncio retry semantics differ)
+        elif op["kind"] == "unary" and client == "rest" and rng.random() < 0.1:
+            # fault: the connection breaks on the first send (stale keep-alive).  Nothing but a request that carries the
+            # right header may follow, whether the client re-sends or lets the error surface
+            script.insert(0, {"conn_error": True})
+            script.append({"reply": {}})
+            op["conn_error_first"] = True
         elif op["kind"] == "unary" and rng.random() < 0.2:
             # the call finally FAILS with a status that is not retried: whatever the client remembered about this call
             # must not reach the next one (e.g. the same request object, corrected in place and re-submitted)
@@ -335,6 +341,9 @@ def judge(spec, scenario, history):
     by = oracle.events_by_op(history, ops)
     for oid, op in ops.items():
         oc = next((e for e in by.get(oid, []) if e["k"] in ("return", "raise")), None)
+        if oc is not None and oc["k"] == "raise" and oc.get("cls") == "ConnectionError" and op.get("conn_error_first"):
+            _bump(probes, "rest_connection_error_surfaced")
+            continue
         if oc is not None and oc["k"] == "raise" and not oc.get("api_error") and oc.get("cls") != "RetryError" \
                 and not (scenario["client"] == "rest" and oc.get("cls") == "ValueError"):
             # (over REST a request that matches no binding legitimately raises ValueError before sending)
